@@ -20,6 +20,8 @@ pub fn list() -> Vec<(&'static str, super::Scenario)> {
         ("pool_census", pool_census),
         ("excl_susp", excl_susp),
         ("order_ctx", order_ctx),
+        ("stale_entry", stale_entry),
+        ("excl_drop", excl_drop),
     ]
 }
 
@@ -945,6 +947,103 @@ fn order_ctx(cfg: &Cfg) {
     g.open();
     join(t1, "t1");
     join(t2, "t2");
+    finish(&w, &[&q], pool);
+    shutdown();
+}
+
+/// C03: stale schedule entries.  Every pool thread is pinned by a blocking job; a queue is scheduled
+/// (entry pushed), then claimed and run by a caller (`how` 0: sync drains it, 1: a task polls its future,
+/// 2: try_sync-free variant where a second sync steals it), leaving its entry behind; another queue is
+/// then scheduled behind the stale entry and only afterwards do the pool threads become free.
+fn stale_entry(cfg: &Cfg) {
+    let pool = cfg.pool();
+    setup(pool);
+    let how = cfg.opt("how", 0);
+    let w = World::new();
+    let mut pins = vec![];
+    for i in 0..pool {
+        let bq = w.raw();
+        let bg = BGate::new();
+        w.desync(&bq, &format!("pin{}", i), Body::blocking(&bg));
+        pins.push((bq, bg));
+    }
+    // let the pool threads pick the pins up
+    rt::quiesce();
+    let mut objs = vec![];
+    for i in 0..pool.max(1) {
+        let a = w.raw();
+        match how {
+            0 => {
+                w.desync(&a, &format!("A{}", i), Body::plain());
+                w.sync(&a, &format!("SA{}", i), Body::plain());
+            }
+            _ => {
+                let h = w.future_desync(&a, &format!("A{}-FD", i), Body::plain());
+                h.wait();
+            }
+        }
+        objs.push(a);
+    }
+    let b = w.raw();
+    let (w1, b1) = (w.clone(), b.clone());
+    let t = spawn(move || { w1.desync(&b1, "B", Body::plain()); });
+    for (_, bg) in &pins {
+        bg.open();
+    }
+    join(t, "t");
+    objs.push(b);
+    let mut all: Vec<&Obj> = objs.iter().collect();
+    for (bq, _) in &pins {
+        all.push(bq);
+    }
+    finish(&w, &all, pool);
+    shutdown();
+}
+
+/// C01: a future_desync future is polled `k` times and dropped while its operation is suspended or
+/// has been taken over by another runner; a second thread issues `other` (0 sync, 1 try_sync, 2 desync)
+/// on the same object; the environment opens the gate.
+fn excl_drop(cfg: &Cfg) {
+    let pool = cfg.pool();
+    setup(pool);
+    let (k, other) = (cfg.opt("k", 1) as usize, cfg.opt("other", 0));
+    let w = World::new();
+    let q = mkobj(&w, cfg);
+    let g = Gate::new();
+    let mut hs = vec![];
+    {
+        let (w1, q1, g1) = (w.clone(), q.clone(), g.clone());
+        let self_open = cfg.opt("opener", 1) == 1;
+        hs.push(spawn(move || {
+            let h = w1.future_desync(&q1, "FD", Body::gated(&g1));
+            let g2 = g1.clone();
+            h.poll_then(k, move || {
+                if self_open {
+                    g2.open()
+                }
+            })
+        }));
+    }
+    {
+        let (w1, q1) = (w.clone(), q.clone());
+        hs.push(spawn(move || match other {
+            0 => {
+                w1.sync(&q1, "S", Body::plain());
+            }
+            1 => {
+                w1.try_sync(&q1, "T", Body::plain());
+            }
+            _ => {
+                w1.desync(&q1, "D", Body::plain());
+            }
+        }));
+    }
+    if cfg.opt("opener", 1) == 0 {
+        g.open();
+    }
+    for (i, h) in hs.into_iter().enumerate() {
+        join(h, &format!("t{}", i));
+    }
     finish(&w, &[&q], pool);
     shutdown();
 }
